@@ -8,8 +8,57 @@ from hypothesis import strategies as st
 from pbt import corpus, inputs
 from pbt.worker import outcome
 
-TRIVIA = ["trailing_comment", "line_comment_prev", "line_comment_next", "blank", "spaces_only", "trailing_spaces",
-          "final_newline", "crlf", "parens"]
+TRIVIA = ["trailing_comment", "line_comment_prev", "line_comment_next", "blank", "blank", "spaces_only", "trailing_spaces",
+          "final_newline", "crlf", "crlf", "parens", "parens_wrap", "parens_wrap"]
+
+# a program with chains of attribute accesses as assignment targets, operands and receivers (base for `parens_wrap`)
+CHAIN_BASE = """class In(def v: Int)
+    def get(self) -> Int => self.v
+class Mid(def b: In)
+    def bump(self) =>
+        self.b.v += 1
+        self.b.v := self.b.v + self.b.get()
+def a := Mid(In(1))
+a.b.v := 5
+a.b.v += 2
+a.bump()
+def t := a.b.v + a.b.get() * 2
+match t
+    1 => print(1)
+    _ => print(a.b.v)
+if t > 3 then
+    print(t)
+else
+    print(0)
+"""
+SWITCHES = set()
+EXCLUDED = {}
+
+
+def wrap_spots(l):
+    """(start, end) of sub-expressions of line l that can be put between parentheses without changing anything: a prefix
+    `x.y` of a longer chain `x.y.z`, the whole right-hand side of a `:=`, a name or number after a binary operator."""
+    if '"' in l or "#" in l or l.lstrip().startswith(("import ", "from ", "class ", "type ")):
+        return []
+    spots = []
+    for m in re.finditer(r"(?<![\w.)\]])([a-z_][A-Za-z0-9_]*\.[a-z_][A-Za-z0-9_]*)(?=\.[a-z_])", l):
+        rest = re.match(r"(\.[a-z_][A-Za-z0-9_]*(\([^()]*\))?)+", l[m.end(1):])
+        if "no_wrap_in_chain_of_four" in SWITCHES and rest.group(0).count(".") >= 2:
+            # open finding F75: x.y.z.w is rejected as it stands and accepted once a prefix is put between parentheses
+            EXCLUDED["no_wrap_in_chain_of_four"] = EXCLUDED.get("no_wrap_in_chain_of_four", 0) + 1
+            continue
+        spots.append((m.start(1), m.end(1)))
+    if not re.match(r"^\s*def\s+(fin\s+)?[A-Za-z_]\w*\s*\(", l):
+        m = re.search(r":=\s+(\S.*\S|\S)\s*$", l)
+        if m:
+            rhs = m.group(1)
+            last = rhs.split()[-1]
+            if last not in ("then", "=>", "do", "handle", "else") and not rhs.startswith(("match ", "\\")) and "=>" not in rhs \
+                    and l.count(":=") == 1:
+                spots.append((m.start(1), m.end(1)))
+    for m in re.finditer(r" (?:\+|-|\*|//|mod) ([a-z_]\w*|\d+)(?![\w.(\[])", l):
+        spots.append((m.start(1), m.end(1)))
+    return spots
 
 
 def _indent(line):
@@ -64,6 +113,22 @@ def transformed(draw, base):
             applied.append((kind, -1, False))
             continue
         i = code[draw(st.integers(0, len(code) - 1))]
+        if kind in ("blank", "spaces_only") and draw(st.integers(0, 9)) < 4:
+            # prefer the places where the grammar accepts exactly one line break: below a match / handle header, between arms,
+            # between a then block and its else
+            sens = [j for n, j in enumerate(code) if n > 0 and (
+                lines[code[n - 1]].lstrip().startswith("match ") or lines[code[n - 1]].rstrip().endswith((" handle", "=>"))
+                or "=>" in lines[code[n - 1]] or lines[j].lstrip().startswith("else"))]
+            if sens:
+                i = sens[draw(st.integers(0, len(sens) - 1))]
+        if kind == "parens_wrap":
+            cands = [(j, sp) for j in code for sp in wrap_spots(lines[j])]
+            if not cands:
+                continue
+            i, (a, b) = cands[draw(st.integers(0, len(cands) - 1))]
+            lines[i] = lines[i][:a] + "(" + lines[i][a:b] + ")" + lines[i][b:]
+            applied.append((kind, i, _indent(lines[i]) > 0))
+            continue
         nested = _indent(lines[i]) > 0
         if kind == "trailing_comment":
             lines[i] = lines[i] + draw(st.sampled_from([" # c", "  #c", " # if then else", " #"]))
@@ -129,6 +194,8 @@ def _case(draw, texts):
     base = src["src"].replace("\r\n", "\n")
     if has_multiline_string(base) or "\t" in base:
         base = "def a := 1\nif a > 0 then\n    print(a)\nelse\n    print(0)\n"
+    if draw(st.integers(0, 9)) == 0:
+        base = CHAIN_BASE
     text, applied = draw(transformed(base))
     return {"gen": src["gen"], "base": base, "variant": text, "applied": [list(a) for a in applied]}
 
@@ -157,6 +224,7 @@ class C14:
         self._texts = None
 
     def strategy(self, tier, switches):
+        SWITCHES.update(s.split(".", 1)[1] for s in switches if "." in s)
         return _case(None)
 
     def summarize(self, case):
@@ -174,6 +242,9 @@ class C14:
         kinds = [a[0] for a in case.get("applied", [])]
         for k in kinds:
             stats.inc("trivia:" + k)
+        for k, v in list(EXCLUDED.items()):
+            stats.inc("excluded_known:" + k, v)
+        EXCLUDED.clear()
         if o0 not in ("ok", "err") or o1 not in ("ok", "err"):
             stats.inc("crash_left_to_C03")
             return None
@@ -190,7 +261,7 @@ class C14:
         if any(a[2] for a in case.get("applied", [])):
             stats.mark_nontrivial({"b": base, "v": variant}, sample=self.summarize(case))
         p0, p1 = r0["ok"][0], r1["ok"][0]
-        if "parens" in kinds:
+        if "parens" in kinds or "parens_wrap" in kinds:
             try:
                 same = py_ast(p0) == py_ast(p1)
             except SyntaxError:
